@@ -168,6 +168,11 @@ func (k *RunKit) generate(p *RunPkg) {
 	if p.Strict {
 		cfg.Generate.Strict = true
 	}
+	// the configuration goes through Validate and UpdateDefaults first, as it does in the command-line tool (a
+	// configuration that names its targets is left as it is by the defaults)
+	if verr := cfg.Validate(); verr == nil {
+		cfg = cfg.UpdateDefaults()
+	}
 	src, err := generate(spec, cfg)
 	if err != nil {
 		p.GenErr = err
